@@ -307,6 +307,11 @@ C16_attrs(req, it, r) ==
           \A i \in DOMAIN r.names : HasRule(r.names[i]) =>
               AttrSupported(r.names[i], req.ver) /\ ~AttrDeprecated(r.names[i], req.ver)
 
+\* ... nor as a Locate filter (a client of an earlier version could otherwise probe the attribute through the result)
+C16_locate(req, it, r) ==
+    (it.op = "Locate" /\ Succ(r)) =>
+        \A i \in DOMAIN it.p.filters : HasRule(it.p.filters[i].name) => AttrSupported(it.p.filters[i].name, req.ver)
+
 \* an attribute not yet introduced under the request's version is not accepted at creation
 C16_create(a, req, it, r, b) ==
     (it.op \in {"Create", "Register"} /\ Succ(r)) =>
@@ -336,7 +341,7 @@ C05_attrs(a, req, it, r) ==
 ItemClauses == {"C03_effect", "C03_denial", "C03_owner", "C04_moves", "C04_initial", "C04_use", "C04_destroy", "C04_compromise",
                 "C07_fresh", "C07_reported", "C07_dead", "C07_frame", "C08_failclean", "C08_frame",
                 "C13_item", "C14_order", "C14_set", "C14_page", "C14_set_groups", "C14_page_groups", "C15_fixed", "C15_fail", "C15_exact",
-                "C16_op", "C16_attrs", "C16_create", "C16_query", "C16_avail", "C05_attrs"}
+                "C16_op", "C16_attrs", "C16_create", "C16_locate", "C16_query", "C16_avail", "C05_attrs"}
 
 Holds(c, a, req, it, r, b, g) ==
     CASE c = "C03_effect" -> C03_effect(a, req, it, r, b)
@@ -365,6 +370,7 @@ Holds(c, a, req, it, r, b, g) ==
       [] c = "C16_op" -> C16_op(req, it, r)
       [] c = "C16_attrs" -> C16_attrs(req, it, r)
       [] c = "C16_create" -> C16_create(a, req, it, r, b)
+      [] c = "C16_locate" -> C16_locate(req, it, r)
       [] c = "C16_query" -> C16_query(req, it, r)
       [] c = "C16_avail" -> C16_avail(req, it, r)
       [] c = "C05_attrs" -> C05_attrs(a, req, it, r)
